@@ -7,6 +7,7 @@ import McpModel.Conn.Deadlock
 import McpModel.Conn.Variant
 import McpModel.Bearer.Props
 import McpModel.KeepAlive.Props
+import McpModel.KeepAlive.CloseProps
 import McpModel.OAuth.Props
 import McpModel.OAuth.Challenge
 import McpModel.Paginate.Props
